@@ -161,6 +161,22 @@ def run_case(case):
     obs['max_rate_x100'] = int(100 * ex['w_max'])
     amp = np.cosh(T * np.sqrt(2 * 9.8 / 6.37e6))
     sample = dict(h=h, T=T, sensor=sensor, extremes=ex, lat0=float(np.rad2deg(m.p['lat'][0])), lon0=float(lon0), alt0=float(m.p['alt'][0]))
+    def cleared_by_finer_rung(k, ch, e_h2, fl):
+        # Two error terms of opposite sign (first-order Earth-rate / transport terms against the second-order truncation) cancel at SOME interval:
+        # next to that interval err(h/2) can exceed err(h) although the solution converges (thorough run, seed 61: 2.16e-8 -> 2.22e-8 rad).  A
+        # component that does not vanish stays put on every finer rung; a cancellation does not survive one more halving.  So the verdict
+        # is taken only after looking one rung further (computed on demand - this is rare).
+        while len(runs) <= k + 2:
+            j = len(runs)
+            runs.append(integrate(m, T, h / 2 ** j, sensor, t0=t0, shuffle=np.random.Generator(np.random.PCG64(case['seed'] + 78)) if shuffled else None))
+        c = runs[k + 2]
+        e_h4 = channel_errors(c, m.trajectory(np.asarray(c.index, float)))[ch].max()
+        obs['not_shrinking_looked_one_rung_further'] = obs.get('not_shrinking_looked_one_rung_further', 0) + 1
+        if e_h4 <= SHRINK * e_h2 or e_h4 <= 100 * fl:
+            obs['not_shrinking_cleared_by_finer_rung'] = obs.get('not_shrinking_cleared_by_finer_rung', 0) + 1
+            return True
+        return False
+
     for k in range(case['rungs'] - 1):
         a, b = runs[k], runs[k + 1]
         hk = h / 2 ** k
@@ -174,7 +190,10 @@ def run_case(case):
             break
         d = channel_errors(a, b_on_a.set_axis(a.index))
         nsteps = len(b)
-        floors = dict(pos=nsteps * EPS * 6.4e6 * amp, vel=nsteps * EPS * (ex['speed_max'] + 10) * amp * 10,
+        # position: in steady motion every step adds the SAME increment to a latitude / longitude in degrees, so the rounding is systematic, not a
+        # random walk - several half-ulps per step in the same direction (thorough run, seed 61: 1.04e-4 m after 2e4 steps at lon 157, with a
+        # truncation error of 1.4e-6 m): 4 eps R per step
+        floors = dict(pos=4 * nsteps * EPS * 6.4e6 * amp, vel=nsteps * EPS * (ex['speed_max'] + 10) * amp * 10,
                       att=nsteps * EPS * 10 * amp)
         rec = {}
         for ch in ('pos', 'vel', 'att'):
@@ -189,7 +208,7 @@ def run_case(case):
                                f'changes the result only by {dd:.3e} (ratio {e_h / max(dd, 1e-300):.2f} > {K_LADDER:g}; floor {fl:.1e}); sensor={sensor}, '
                                f'T={T:g} s, lat0={sample["lat0"]:.2f}, lon0={sample["lon0"]:.2f}, speed<={ex["speed_max"]:.0f} m/s',
                                channel=ch, h=hk, case=sample))
-            elif e_h > 100 * fl and e_h2 > SHRINK * e_h:
+            elif e_h > 100 * fl and e_h2 > SHRINK * e_h and not cleared_by_finer_rung(k, ch, e_h2, fl):
                 out.append(vio('not_shrinking', f'{ch}: error {e_h:.3e} at h={hk:g} but {e_h2:.3e} at h/2 (does not shrink); sensor={sensor}',
                                channel=ch, h=hk, case=sample))
         sample[f'rung{k}'] = rec
